@@ -113,6 +113,9 @@ func genLevel(t *rapid.T, cfg *genCfg, lv, depth int) *node {
 		case depth > 0 && k == 1 && len(cfg.funcs) > 0 && cfg.spend():
 			name := rapid.SampledFrom(cfg.funcs).Draw(t, "fn")
 			argc := rapid.IntRange(0, cfg.maxArgs).Draw(t, "argc")
+			if rapid.IntRange(0, 11).Draw(t, "manyargs") == 0 {
+				argc = rapid.IntRange(cfg.maxArgs, 4*cfg.maxArgs+4).Draw(t, "argcmany") // long argument lists (9th, 16th argument ...)
+			}
 			n = &node{Op: "call", Tok: cfg.ident(t, name)}
 			for i := 0; i < argc; i++ {
 				n.Kids = append(n.Kids, genExpr(t, cfg, depth-1))
